@@ -1104,6 +1104,15 @@ example : validatesDoc (genInlineDoc Ex.tFrag) (.obj [(t!"Ratio", .num 15 1), (t
     validatesDoc (genInlineDoc Ex.tFrag) (.obj [(t!"name", .str t!"n"), (t!"count", .str t!"7"), (t!"Ratio", .num 15 1), (t!"tags", .arr []), (t!"grid", .arr []), (t!"index", .obj [])]) = false ∧
     validatesDoc (genInlineDoc Ex.tFrag) (encodeFull [] Ex.tFrag Ex.vFrag) = true := by decide
 
+/-- $defs style, anonymous struct types: one `$defs` entry per TYPE — different types under equally named fields get
+    different entries, the same type met again re-uses its entry — and the document accepts the encoded value
+    (a generator keying the entry by the field name instead would hand `backup.limits` the schema of `primary.limits`) -/
+example : ((genDefsDoc [] Ex.tTwins).defs.map (·.1)) = [t!"Type0x0", t!"Type0x1", t!"Type0x2", t!"Type0x3", t!"Type0x4"] ∧
+    (genDefsDoc [] Ex.tTwins).refs.length = 6 ∧ refsResolve (genDefsDoc [] Ex.tTwins) = true ∧
+    ((genDefsDoc [] Ex.tTwins).defs.lookup t!"Type0x2").map propertyNames = some [t!"max"] ∧
+    ((genDefsDoc [] Ex.tTwins).defs.lookup t!"Type0x4").map propertyNames = some [t!"codes"] ∧
+    validatesDoc (genDefsDoc [] Ex.tTwins) (encodeFull [] Ex.tTwins Ex.vTwins) = true := by decide
+
 /-- `C18_refs_resolve` applies to recursive environments, and the recursive documents do contain references -/
 example : cleanEnv Ex.envList = true ∧ (genDefsDoc Ex.envList Ex.tList).refs = [t!"#/$defs/main.List", t!"#/$defs/main.List"] ∧
     (genNestedDoc Ex.envList Ex.tList).refs = [t!"#"] ∧ refsResolve (genNestedDoc Ex.envList Ex.tList) = true := by decide
